@@ -4,6 +4,7 @@ import Proofs.C05Value
 import Proofs.C05Tables
 import Proofs.C05Scan
 import Proofs.C05Rec
+import Proofs.C05Longest
 /-!
 # C05 — number/string conversion and comparison typing follow the AWK value model
 
@@ -158,6 +159,52 @@ theorem same_number (sc : Strconv Num) (s : Bytes) (n : Num) (h : isTrueStr sc (
   | some r =>
     simp [hw] at h
     simp [toNum, toBool, hw, whole_prefix_agree sc.ovf s r hw, h]
+
+/-! ## string → number: the longest leading numeric prefix, else 0
+
+Grammar: `GoawkModel/C05Grammar.lean` (`NumTextS`, `NumText`, `IsLongestNumPrefix`, `textRes`, `HexNoDigits`). -/
+
+/-- `parseFloatPrefix s`, with `u` = `s` after its leading ASCII blanks:
+* either it converts exactly the LONGEST prefix of `u` that is a numeric text (existence: the consumed text is a numeric
+  text of shape `sh`; maximality: no longer prefix of `u` is a numeric text) — as a special value for `nan`/`inf`, else by
+  handing that text (plus `p0` for a hex text without exponent) to `strconv`;
+* or it returns 0 and no prefix of `u` is a numeric text;
+* or — the one back-off the scanner does not make — `u` is sign? `0x` followed by a byte but no hex digit
+  (`0xg`, `-0x.`): it returns 0 although the longest numeric text is sign? `0` (same value up to the sign of zero). -/
+theorem prefix_longest (s : Bytes) :
+    let u := s.dropWhile isAsciiSpace
+    (∃ sh p, IsLongestNumPrefix u p ∧ NumTextS sh p ∧ scanPrefix s = textRes sh p) ∨
+    (scanPrefix s = .zero ∧ ∀ q, q <+: u → ¬ NumText q) ∨
+    (scanPrefix s = .zero ∧ HexNoDigits u ∧ ∃ sign, IsOptSign sign ∧ IsLongestNumPrefix u (sign ++ [48])) :=
+  prefixCore_longest (s.dropWhile isAsciiSpace)
+
+/-- the statement without the third alternative (“else 0” only when NO prefix is a numeric text) -/
+def PrefixLongestStrict : Prop :=
+  ∀ s : Bytes, let u := s.dropWhile isAsciiSpace
+    (∃ sh p, IsLongestNumPrefix u p ∧ NumTextS sh p ∧ scanPrefix s = textRes sh p) ∨
+    (scanPrefix s = .zero ∧ ∀ q, q <+: u → ¬ NumText q)
+
+/-- … is false of the code as it is: `0xg` converts through the hex branch to 0 by "no digit", not as the text `0`
+(observation G05-1: for `-0xg` the result is +0 where the text `-0` denotes −0; witness replayed by the harness corpus) -/
+theorem prefix_longest_strict_fails : ¬ PrefixLongestStrict := by
+  intro h
+  have h0 : scanPrefix [48, 120, 103] = .zero := by decide
+  rcases h [48, 120, 103] with ⟨sh, p, _, _, hr⟩ | ⟨_, hno⟩
+  · rw [h0] at hr; cases sh <;> simp [textRes] at hr
+  · exact hno [48] ⟨[120, 103], rfl⟩ ⟨.dec, numText_zero [] (Or.inl rfl)⟩
+
+/-- the back-off cases: `1e`, `1e+`, `1e-x` convert `1`; `0x` converts `0`; `.`, `+`, `-.`, `e5` give 0 (no numeric text);
+`0x1p` converts `0x1` (+`p0`); `1.5.2` converts `1.5`; `.5e` converts `.5`; `0xg` is the quirk -/
+example : scanPrefix [49, 101] = .conv [49] ∧ scanPrefix [49, 101, 43] = .conv [49] ∧
+    scanPrefix [49, 101, 45, 120] = .conv [49] ∧ scanPrefix [48, 120] = .conv [48] ∧
+    scanPrefix [46] = .zero ∧ scanPrefix [43] = .zero ∧ scanPrefix [45, 46] = .zero ∧ scanPrefix [101, 53] = .zero ∧
+    scanPrefix [48, 120, 49, 112] = .conv [48, 120, 49, 112, 48] ∧ scanPrefix [49, 46, 53, 46, 50] = .conv [49, 46, 53] ∧
+    scanPrefix [46, 53, 101] = .conv [46, 53] ∧ scanPrefix [48, 120, 103] = .zero ∧
+    scanPrefix [32, 43, 49, 101, 53, 120] = .conv [43, 49, 101, 53] := by decide
+
+example : NumTextS .dec [43, 49, 46, 101, 53] :=
+  ⟨[43], [49, 46, 101, 53], rfl, Or.inr ⟨43, rfl, by decide⟩, [49], [46], [], [101, 53], rfl,
+    ⟨by decide, by decide, Or.inr rfl, Or.inl (by simp)⟩, Or.inr ⟨101, [], [53], rfl, by decide, Or.inl rfl, by decide, by simp⟩⟩
 
 /-! ## provenance is per value: a freshly read record does not depend on the history -/
 
